@@ -174,7 +174,8 @@ def write_input(workdir: str, inp: Dict, name: str, shuffle_rng=None, qsel=None,
     if rorder:
         refs = [next(r for r in refs if r["id"] == i) for i in rorder if any(r["id"] == i for r in refs)]
     pipeline.write_cmap(rp, refs, shuffle_rng, extra_columns)
-    pipeline.write_cmap(qp, qrys, shuffle_rng, extra_columns)
+    pipeline.write_cmap(qp, [dict(q, id=q["id"] + pipeline.QID_BASE) for q in qrys] if pipeline.QID_BASE else qrys,
+                        shuffle_rng, extra_columns)
     return rp, qp
 
 
